@@ -557,6 +557,12 @@ func doBinaryOp(a constant.Value, tok token.Token, b constant.Value, ctx []*inte
 			panic(fmt.Errorf("invalid shift count: cannot convert type %v to type uint", ctx[1].Type))
 		}
 		if s, exact := constant.Int64Val(b); exact {
+			// like go/types: a constant left shift allocates `count` bits, so the count is bounded
+			// (the largest exponent of a float64 plus its mantissa bits)
+			const shiftBound = 1023 - 1 + 52
+			if tok == token.SHL && (s < 0 || s > shiftBound) {
+				panic(fmt.Errorf("invalid shift count %v", b))
+			}
 			return constant.Shift(a, tok, uint(s))
 		}
 		panic(errors.New("shift count too large (overflow)"))
